@@ -39,7 +39,8 @@ Definition struct_parse {A} (d : dec A) (bs : list Z) : res (A * list Z) := of_o
      [struct_parse(ULInt8(''), stream) for i in range(length)]
    a short stream fails on the first missing byte with ELFParseError *)
 Definition read_blob (length : Z) (bs : list Z) : res (list Z * list Z) :=
-  of_opt EParse (take (Z.to_nat length) bs).
+  if zlen bs <? length then Err EParse        (* (compared in Z so that a huge length costs nothing) *)
+  else of_opt EParse (take (Z.to_nat length) bs).
 
 (* one operand kind = one of the closures of _init_dispatch_table, applied to the
    stream; returns the argument values it contributes and the rest of the stream.
